@@ -349,7 +349,7 @@ class Runner:
                 'known_findings_confirmed': sorted(confirmed),
                 'vacuity': vac,
                 'extraction_dropped': ['type annotations', 'cast() wrappers', 'docstrings/comments', 'decorators kept as calling convention'],
-                'exhaustive': False,
+                'exhaustive': bool(getattr(chk, 'exhaustive', False)),
             },
             'assumptions': chk.assumptions + sorted(ip.assumed),
         }
@@ -486,6 +486,15 @@ def main(pid, build, argv=None):
     seed = int(os.environ.get('VERIF_SEED', '0') or 0)
     if a.replay:
         path = a.replay if os.path.isabs(a.replay) else os.path.join(VERIF, a.replay)
+        with open(path) as f:
+            rp = json.load(f)
+        if rp.get('kind') == 'ground' or rp.get('inputs') is None or not rp.get('harness'):
+            # no concrete input to run: re-evaluate the named obligation on the current tree
+            r = Runner(pid, build, tier=a.tier, seed=seed)
+            r.run()
+            hit = [v for v in r.violations if v.obligation == rp.get('obligation')]
+            print(json.dumps({'obligation': rp.get('obligation'), 'reproduced': bool(hit)}))
+            return 1 if hit else 0
         v = native_replay(path)
         print(json.dumps(v, indent=1))
         return 1 if v.get('reproduced') else 0
